@@ -438,11 +438,14 @@ def pipeline_case(ctx, drv, case, light=False):
                     if not (lp > lt0):
                         ctx.pred_fail(key("perturbed-not-larger"), f"{lt} loss at a perturbed {what} is not larger than at the truth (batch size {b})",
                                       {**case, "loss_type": lt, "batch_size": b, "perturbation": j}, observed=f"perturbed={lp:.6g} truth={lt0:.6g}", required="perturbed > truth")
-            if j in (0, 3):   # model loss correspondence away from the truth (full batch)
-                recs = cp.run_pipeline(p, lt, n)
-                ml = b2f(ask(drv, {"op": "loss", "loss_type": lt, "preds": [enc_rows(x) for x in recs[0]["pred"]],
-                                   "targets": [enc_rows(x) for x in p.dset.targets.double().numpy()], "mask": enc_rows(mask), "num_gpts": n, "mean_intensity": f2b(mean_I)}))
-                corr(ctx, f"loss-value[{lt}]", case, np.array([ml]), np.array([recs[0]["loss"]]), TOL32, note=f"perturbed {what}")
+            if j in (0, 3):   # model loss correspondence away from the truth: full batch and one partial batch (batch-fraction scaling)
+                for b in (n, bsizes[1] if len(bsizes) > 1 and bsizes[1] < n else max(1, n // 2)):
+                    rec = cp.run_pipeline(p, lt, b)[-1]      # the last batch (possibly shorter than b)
+                    bi = rec["indices"]
+                    ml = b2f(ask(drv, {"op": "loss", "loss_type": lt, "preds": [enc_rows(x) for x in rec["pred"]],
+                                       "targets": [enc_rows(x) for x in p.dset.targets[bi].double().numpy()], "mask": enc_rows(mask),
+                                       "num_gpts": n, "mean_intensity": f2b(mean_I)}))
+                    corr(ctx, f"loss-value[{lt}]", case, np.array([ml]), np.array([rec["loss"]]), TOL32, note=f"perturbed {what}, batch of {len(bi)} of {n}")
     ctx.sample({k: case[k] for k in ("stream", "rseed", "index", "roi", "scan", "step_px", "samp", "slices", "modes", "obj_type", "pad", "pad_used", "obj_shape", "com") if k in case}, limit=6)
     return ok_int
 
